@@ -693,6 +693,7 @@ where
                     connection: Some(connection),
                     token: self.token,
                     pool: self.pool.clone(),
+                    ready: false,
                 });
             }
         }
@@ -709,6 +710,9 @@ where
     connection: Option<C>,
     token: Token,
     pool: PoolRef<C, B>,
+
+    /// Whether the connection has reported that it is ready for another request.
+    ready: bool,
 }
 
 impl<C, B> std::future::Future for WhenReady<C, B>
@@ -725,7 +729,10 @@ where
             .expect("connection polled after drop")
             .poll_ready(cx)
         {
-            std::task::Poll::Ready(Ok(())) => std::task::Poll::Ready(()),
+            std::task::Poll::Ready(Ok(())) => {
+                self.ready = true;
+                std::task::Poll::Ready(())
+            }
             std::task::Poll::Ready(Err(err)) => {
                 tracing::trace!(error = %err, "Connection errored while polling for readiness");
                 std::task::Poll::Ready(())
@@ -742,7 +749,10 @@ where
 {
     fn drop(&mut self) {
         if let Some(connection) = self.connection.take() {
-            if connection.is_open() && !self.token.is_zero() {
+            // A connection only goes back to the pool once it has reported itself ready. If this
+            // future is dropped before that (the runtime it was spawned on is shut down), the
+            // connection may still be in use, whatever `is_open` says.
+            if self.ready && connection.is_open() && !self.token.is_zero() {
                 if let Some(mut pool) = self.pool.lock() {
                     trace!("open connection returned to pool");
                     pool.push(self.token, connection, self.pool.clone());
